@@ -405,6 +405,49 @@ def check_mapsign(res, facts):
             rule.bad(key, "negation table (sgn0(y), %s) -> negated is %s; the specification negates exactly when the two differ" % ("sgn0(u)" if tag == "swu" else "g(x1) square", {k: sorted(v) for k, v in table.items()}), f.loc)
 
 
+def check_isoexc(res, facts):
+    """RFC 9380 6.6.3: the isogeny map is undefined where a denominator vanishes (the kernel points); there the
+    identity must be returned.  Structurally: the construction of the image point is guarded by zero tests of BOTH
+    evaluated denominators (C16 shows that the shipped denominators do have roots that are x-coordinates of
+    rational points of the isogenous curve, so the case is reachable)."""
+    from rules.c07 import E, show
+    rule = res.rule("R-ISOEXC", "IsogenyMap::apply returns the identity when a denominator of the rational map vanishes", 1)
+    fs = [f for f in facts.fns(unit="ws", crate="ark_ec") if f.kind != "Closure" and f.name == "apply" and "curve_maps::wb" in f.id]
+    key = "ark_ec|IsogenyMap::apply|zero-denominator"
+    if not fs:
+        rule.bad(key, "anchor missing")
+        return
+    f = fs[0]
+    cd = DF.control_deps(f)
+    sites = [bb for bb, t in f.calls() if t["f"].get("name") == "new_unchecked"]
+    if not sites:
+        rule.undecided(key, "image point construction not found", f.loc)
+        return
+    covered = set()
+    seen, st = set(), list(sites)
+    guards = []
+    while st:
+        b = st.pop()
+        for (sw, succ) in cd.get(b, ()):
+            if sw in seen:
+                continue
+            seen.add(sw)
+            st.append(sw)
+            guards.append(E(f, f.bbs[sw]["t"]["o"]))
+    for g in guards:
+        txt = show(g)
+        if "is_zero" in txt:
+            for d in ("x_map_denominator", "y_map_denominator"):
+                if d in txt:
+                    covered.add(d)
+    # a test on the batch-inverted values / on the product also counts when it mentions both evaluations
+    missing = [d for d in ("x_map_denominator", "y_map_denominator") if d not in covered]
+    if missing:
+        rule.bad(key, "the image point is built as (x_num(x)/x_den(x), y*y_num(x)/y_den(x)) with no zero test of %s: at a kernel point of the isogeny the batch inversion leaves 0 and the map returns (0, 0), which is neither on the target curve nor the identity (RFC 9380 6.6.3 requires the identity)" % " / ".join(missing), f.loc)
+    else:
+        rule.ok(key, "guarded by zero tests of both denominators", f.loc)
+
+
 def check_xmd(res, facts):
     rule = res.rule("R-XMD", "expand_message_xmd / DST construction feed the hash in the order of RFC 9380 5.3.1 / 5.3.3", 3)
     fns = {}
@@ -612,6 +655,7 @@ def run(ctx, res):
     check_cleared(res, facts)
     check_maps(res, facts)
     check_mapsign(res, facts)
+    check_isoexc(res, facts)
     return {
         "level": "other",
         "explanation": "Ordering / provenance rules over the MIR of the message expander, hash_to_field and the hash-to-curve wrapper: each hash `update` argument is abstracted to its provenance (Z_pad, message, length, counter, DST', b_0, xor) and the sequence between finalisations compared with RFC 9380; length and slicing expressions are checked by dataflow; the final result is shown to pass cofactor clearing. Equality with an independent RFC implementation on concrete messages (needs SHA-2) and that the SWU / Elligator / isogeny maps land on the curve for every field element are NOT decided here (map constants: C16).",
